@@ -2,6 +2,7 @@
 package parser
 
 import (
+	"bytes"
 	"fmt"
 	"strings"
 	"sync"
@@ -936,6 +937,14 @@ retry:
 	var bps []BlockParser
 	line, _ := reader.PeekLine()
 	w, pos := util.IndentWidth(line, reader.LineOffset())
+	if w < 4 && pos < len(line) && bytes.IndexByte(line[:pos], '\t') >= 0 {
+		// a tab worth fewer than four columns is indentation like spaces are:
+		// the block parsers measure indentation in leading spaces, so hand
+		// them the line with that indentation as padding
+		reader.AdvanceAndSetPadding(pos, w)
+		line, _ = reader.PeekLine()
+		pos = w
+	}
 	if pos >= len(line) {
 		pc.SetBlockOffset(-1)
 		pc.SetBlockIndent(-1)
